@@ -9,27 +9,144 @@ import collections
 import itertools
 import json
 import re
+import signal
+import threading
 import zlib
 
 import common
 
 
+# --------------------------------------------------------------------------- time limit
+#
+# Nothing of the code under test is waited for without bound: every compilation, rendering and codec call runs under a
+# watchdog.  The alarm raises a BaseException (the tag swallows `Exception` in places), which is turned into an ordinary
+# exception outside the library: the callers report it like any other failed request.  After a few of them the search
+# is given up (the failures found so far are the verdict).
+
+LIMIT = 10.0
+MAX_HANGS = 3
+_hangs = [0]
+
+
+class _Alarm(BaseException):
+    pass
+
+
+class DidNotReturn(Exception):
+    pass
+
+
+class GiveUp(BaseException):
+    pass
+
+
+def _on_alarm(signum, frame):
+    raise _Alarm()
+
+
+def limited(fn, *a, **kw):
+    """fn(*a, **kw) with a time limit; DidNotReturn when it is exceeded"""
+    if _hangs[0] >= MAX_HANGS:
+        raise GiveUp()
+    if threading.current_thread() is not threading.main_thread():
+        return fn(*a, **kw)
+    old = signal.signal(signal.SIGALRM, _on_alarm)
+    signal.setitimer(signal.ITIMER_REAL, LIMIT)
+    try:
+        try:
+            return fn(*a, **kw)
+        finally:
+            signal.setitimer(signal.ITIMER_REAL, 0)
+            signal.signal(signal.SIGALRM, old)
+    except _Alarm:
+        _hangs[0] += 1
+        raise DidNotReturn('no result within %g s (time limit)' % LIMIT) from None
+
+
 # --------------------------------------------------------------------------- codec
 
 def indep_decode(text):
-    """decode a tree cookie / link value without TreeTag: url-safe '-' for '+', no padding"""
+    """decode a tree cookie / link value without TreeTag: url-safe '-' for '+', no padding; the text inside is JSON in
+    UTF-8 (lone surrogates, which JSON may carry escaped or a lenient encoder raw, are accepted either way)"""
     s = text.replace('-', '+')
     s += '=' * (-len(s) % 4)
-    return json.loads(zlib.decompress(base64.b64decode(s)).decode('utf-8'))
+    return json.loads(zlib.decompress(base64.b64decode(s)).decode('utf-8', 'surrogatepass'))
+
+
+SCALAR = (str, int, float, type(None))      # what an id may be: the JSON scalars (bool is an int)
 
 
 def link_path(text):
     """the path a link value encodes; a value that cannot be decoded is a path no node has"""
     try:
         path = indep_decode(text)
-        return path if isinstance(path, list) and all(isinstance(x, (str, int, float)) for x in path) else ['<not a path>']
+        return path if isinstance(path, list) and all(isinstance(x, SCALAR) for x in path) else ['<not a path>']
     except Exception:
         return ['<undecodable>']
+
+
+# ---- node ids of every kind ("for ... any node ids")
+#
+# An id is whatever the id method of the application's object returns and JSON can carry as a scalar.  Strings are built
+# from atoms of nine categories (every code-point class of Python's str, and every character that means something to one
+# of the layers an id travels through: JSON text, UTF-8, zlib, base64, a URL query, a cookie, HTML attributes);
+# non-strings are the other JSON scalars.  The expected behaviour is the same for all of them: the id is opaque.
+ID_ATOMS = collections.OrderedDict([
+    # unpaired surrogates: what os.listdir / os.fsdecode hand out for file names that are not valid UTF-8
+    ('surrogate', ['\udce9', '\udc80', '\udcff', '\udfff', '\udc00', '\ud800', '\udbff', '\udc00\ud800',
+                   '\udcff\udcfe']),
+    ('astral', ['\U0001f600', '\U00010000', '\U0010ffff', '\U0001f1e9\U0001f1ea', '\U000e0041']),
+    ('bmp', ['\uffff', '\ufffe', '\ufeff', '\ufffd', '\u2028', '\u2029', '\u0100', '\u07ff', '\u0800', '\ud7ff',
+             '\ue000', '\u4e2d', '\u200b', '\u202e', '\u3000']),
+    ('latin1', ['\xe9', 'e\u0301', '\x7f', '\x80', '\x9f', '\xa0', '\xad', '\xff', '\xdf', '\u0130']),
+    ('control', ['\x00', '\x01', '\t', '\n', '\r', '\r\n', '\x0b', '\x0c', '\x1b', '\x1f']),
+    ('json', ['"', '\\', '\\u0041', '\\n', '\\"', '/', '\\/', 'null', 'true', '[]', '[1,2]', '{"a":1}', '1e5', ',']),
+    ('markup', ['<', '>', '&', '&amp;', '&#233;', '&lt;b&gt;', "'", '<b>', '<!--', '-->']),
+    ('url', ['%', '%41', '%00', '+', '-', '=', '?', '#', ';', '&x=1', '..', '~', 'tree-e=', ':', '@']),
+    ('alike', ['', ' ', '  ', ' a', 'a ', 'a', 'A', 'root', 'Root', '0', '00', '1', '01', '1.0', 'None', 'tree-s']),
+])
+# what the page parser of this harness keys on (and a high surrogate followed by a low one, which JSON reads as ONE
+# character: left out, see `partial`)
+ID_FORBIDDEN = re.compile(r'<a|</?tr|href=|<i title|\[\[|\]\]|[\ud800-\udbff][\udc00-\udfff]')
+# the other JSON scalars, and strings that look like them
+ID_SCALARS = [0, 1, -1, 7, 10, 2 ** 31, 2 ** 53 + 1, 2 ** 64, -2 ** 70, 10 ** 30, 0.5, -2.25, 1e300, 1e-7, 5e-324, 0.1,
+              1.0000000000000002, -0.0, 3.0, None, True, False, '', '0', '1', '-1', '0.5', 'None', 'null', 'True', '3.0', ' 1']
+ID_FALSY = ['', 0, None, False, 0.0]
+
+
+def wild_id(r, cat, taken):
+    """a string id containing at least one atom of category `cat` (None: any), not equal to any id in `taken`"""
+    cats = list(ID_ATOMS)
+    for attempt in range(200):
+        parts = [r.choice(ID_ATOMS[cat or r.choice(cats)])]
+        for _ in range(r.choice((0, 0, 1, 1, 2, 3))):
+            parts.append(r.choice(ID_ATOMS[r.choice(cats)]) if r.random() < 0.6 else r.choice(('a', 'B', '7', 'x-y', '_')))
+        r.shuffle(parts)
+        s = ''.join(parts)
+        if r.random() < 0.12:
+            s = s * r.randint(10, 60)       # long ids: cookies and links beyond the 57 / 76 byte lines of the codec
+        if attempt > 100:
+            s += str(attempt)
+        if not ID_FORBIDDEN.search(s) and s not in taken:
+            return s
+    return 'id%d' % len(taken)
+
+
+def scalar_ids(r, n, avoid=()):
+    """n ids among the JSON scalars, pairwise different under == (1 == 1.0 == True is ONE id)"""
+    out = []
+    pool = list(ID_SCALARS)
+    r.shuffle(pool)
+    for v in pool:
+        if len(out) >= n:
+            break
+        if not any(v == o for o in out + list(avoid)):
+            out.append(v)
+    k = 100
+    while len(out) < n:
+        k += 1
+        out.append(k if k % 2 else k + 0.5)
+    return out
 
 
 def cookie_paths(cookie):
@@ -38,6 +155,13 @@ def cookie_paths(cookie):
         return state_paths(indep_decode(cookie))
     except Exception:
         return None
+
+
+def same_state(a, b):
+    """equal, and equal in type at every id (1 and 1.0 and True are different things to have come back)"""
+    if isinstance(a, (list, tuple)) and isinstance(b, (list, tuple)):
+        return len(a) == len(b) and all(same_state(x, y) for x, y in zip(a, b))
+    return type(a) is type(b) and a == b and repr(a) == repr(b)
 
 
 def codec_part(res, r, tier, have_driver):
@@ -51,14 +175,19 @@ def codec_part(res, r, tier, have_driver):
     reqs = []
     orig_dec, orig_loads = TT.decompress, TT.json.loads
     for b in blobs:
-        enc = TT.encode_str(b)
         res.evaluations += 1
-        # real decode path up to decompress: patch decompress/json to expose the bytes
         try:
-            TT.decompress = lambda x: json.dumps(list(x))
-            back = bytes(TT.decode_seq(enc.decode('ascii')))
-        finally:
-            TT.decompress = orig_dec
+            enc = limited(TT.encode_str, b)
+            # real decode path up to decompress: patch decompress/json to expose the bytes
+            try:
+                TT.decompress = lambda x: json.dumps(list(x))
+                back = bytes(limited(TT.decode_seq, enc.decode('ascii')))
+            finally:
+                TT.decompress = orig_dec
+        except Exception as e:
+            res.oracle_fail.append({'case': {'bytes_hex': b.hex()}, 'what': 'encoding / decoding %d bytes raised %s: %.200s' % (
+                len(b), type(e).__name__, e)})
+            continue
         if back != b:
             res.oracle_fail.append({'case': {'bytes_hex': b.hex()}, 'what': 'decode(encode(bytes)) != bytes '
                                     '(len %d): got %d bytes' % (len(b), len(back))})
@@ -76,14 +205,41 @@ def codec_part(res, r, tier, have_driver):
         state = [['root', [[i, []] for i in ids[:n + 1]]]]
         res.evaluations += 1
         try:
-            c = TT.encode_seq(state)
-            same = TT.decode_seq(c) == state and indep_decode(c) == state
+            c = limited(TT.encode_seq, state)
+            same = limited(TT.decode_seq, c) == state and indep_decode(c) == state
         except Exception as e:
             res.oracle_fail.append({'case': {'state': state}, 'what': 'cookie round trip raised %s: %.200s' % (
                 type(e).__name__, e)})
             continue
         if not same:
             res.oracle_fail.append({'case': {'state': state}, 'what': 'cookie round trip changed the state'})
+    # ids of every kind through the whole cookie codec: each atom of ID_ATOMS and each of the other JSON scalars as the
+    # root id, as first of 1 / 4 / 25 sibling ids and inside the ids two levels further down
+    vals = [a for atoms in ID_ATOMS.values() for a in atoms] + [v for v in ID_SCALARS if v == v]
+    for vi, a in enumerate(vals):
+        for size in (1, 4, 25) if (tier != 'quick' or vi % 3 == 0) else (1, 4):
+            if isinstance(a, str):
+                sibs = [a + str(k) if k else a for k in range(size)]
+                deep = [[a + '~' + a, [[a + 'x' + a, []]]]]
+            else:
+                sibs = [a] + ['s%d' % k for k in range(1, size)]
+                deep = [[a, [[a, []]]]]
+            state = [[a, [[x, deep if k == 0 else []] for k, x in enumerate(sibs)]]]
+            res.evaluations += 1
+            res.count('codec_id_states')
+            try:
+                c = limited(TT.encode_seq, state)
+                back = limited(TT.decode_seq, c)
+                ind = indep_decode(c)
+            except Exception as e:
+                res.oracle_fail.append({'case': {'state': state}, 'what': 'cookie round trip of a state with the id %s '
+                                        'raised %s: %.200s' % (ascii(a), type(e).__name__, ascii(str(e)))})
+                continue
+            if not (isinstance(c, str) and re.fullmatch(r'[A-Za-z0-9/\-]*', c)):
+                res.oracle_fail.append({'case': {'state': state}, 'what': 'cookie value %.60r is not url-safe base64 text' % (c,)})
+            elif not same_state(back, state) or not same_state(ind, state):
+                res.oracle_fail.append({'case': {'state': state}, 'what': 'cookie round trip changed a state with the id %s: '
+                                        'decoded %.300s' % (ascii(a), ascii(back))})
     if have_driver:
         resp = common.run_driver([q for q, _, _ in reqs])
         for (q, b, enc), rp in zip(reqs, resp):
@@ -144,15 +300,17 @@ _tmpl = []
 def render(root, cookie, param, assume=False):
     from DocumentTemplate import HTML
     if not _tmpl:
-        _tmpl.append(HTML('<dtml-tree>[[<dtml-var nid>]]</dtml-tree>'))
-        _tmpl.append(HTML('<dtml-tree assume_children=1>[[<dtml-var nid>]]</dtml-tree>'))
+        for src in ('<dtml-tree>[[<dtml-var nid>]]</dtml-tree>', '<dtml-tree assume_children=1>[[<dtml-var nid>]]</dtml-tree>'):
+            t = HTML(src)
+            limited(t.cook)         # compiled here, under the time limit (not lazily inside the first request)
+            _tmpl.append(t)
     resp = Resp()
     md = {'URL': 'http://host/app/tree', 'RESPONSE': resp}
     if cookie is not None:
         md['tree-s'] = cookie
     if param:
         md[param[0]] = param[1]
-    out = _tmpl[1 if assume else 0](root, md)
+    out = limited(_tmpl[1 if assume else 0], root, md)
     rows = []
     for m in ROW.finditer(out):
         cell = m.group(1)
@@ -467,11 +625,29 @@ DECOY = LiveDoc(Sp('DECOY', 'DECOY', 0, (), True), (), False)
 DECOY_CLIENT = build_live(Sp('DECOY-ROOT', 'DECOY-ROOT', 0, (Sp('DECOY-KID', 'DECOY-KID', 0, (), False),), False), 'own', False)
 
 
-def gen_spec(r, nodes, depth, idkind, docs, strkeys):
-    """random tree description; ids unique in the tree, sort keys distinct among siblings and in an order of their own"""
+_NO = object()
+
+
+def gen_spec(r, nodes, depth, idkind, docs, strkeys, cat=None, force=None):
+    """random tree description; sort keys distinct among siblings and in an order of their own.  Ids: unique in the tree
+    ('plain' 'odd' 'int' 'oid'; 'wild' = strings with an atom of category `cat`; 'scalar' = the other JSON scalars and
+    their look-alikes) or unique among siblings only ('dup': the same few ids under every parent, children named like
+    their parent or like the root).  force = ('root' | 'child' | 'deep', value): that id for the root / the first child
+    of the root / the first grandchild"""
     odd = ['r', 'nöde é', 'x' * 60, 'a-b', '0', 'Z z', 'ü', 'q']
     counter = itertools.count()
     ints = r.sample(range(-5, 90), nodes + 2)
+    fv = [force[1]] if force else []
+    pool = None
+    if idkind == 'wild':
+        pool = []
+        for _ in range(nodes + 2):
+            pool.append(wild_id(r, cat, pool + fv))
+    elif idkind == 'scalar':
+        pool = scalar_ids(r, nodes + 2, fv)
+    dup_pool = ['p', 'q', 'p ', 'P', 0, '0', '\xe9', 'e\u0301', '', '\udce9']
+    if idkind == 'dup':
+        r.shuffle(dup_pool)
 
     def shape(depth_left, budget, top=False):
         kids = []
@@ -480,7 +656,7 @@ def gen_spec(r, nodes, depth, idkind, docs, strkeys):
             kids.append(shape(depth_left - 1, budget))
         return kids
 
-    def mk(kids, key, top=False):
+    def mk(kids, key, given=_NO, top=False, lvl=0):
         i = next(counter)
         label = (odd[i % 8] + str(i)) if idkind == 'odd' else 'n%d' % i
         if idkind == 'int':
@@ -489,14 +665,33 @@ def gen_spec(r, nodes, depth, idkind, docs, strkeys):
             # 8-byte object ids as the ZODB hands them out, some with bytes that encode to '+' and '/'
             raw = (i + 1).to_bytes(8, 'big') if i % 3 else bytes([0, 0, 0, 0, 0xfb, 0xef, 0xbe, i])
             sid = base64.b64encode(raw).decode('ascii')
+        elif pool is not None:
+            sid = pool[i]
+        elif idkind == 'dup':
+            sid = dup_pool[0] if given is _NO else given
         else:
             sid = label
         keys = r.sample(range(100), len(kids))
         if strkeys:
             keys = ['k%02d' % k for k in keys]
-        subs = tuple(mk(k, keys[j]) for j, k in enumerate(kids))
+        gives = [_NO] * len(kids)
+        if idkind == 'dup':
+            # the parent's own id first in line (prob. 1/2), then the rest of the pool; more children than the pool: numbers
+            names = [x for x in dup_pool if x != sid]
+            r.shuffle(names)
+            names = ([sid] + names) if r.random() < 0.5 else (names + [sid])
+            gives = (names + list(range(100, 100 + len(kids))))[:len(kids)]
+            r.shuffle(gives)
+        if force and kids and ((force[0] == 'child' and lvl == 0) or (force[0] == 'deep' and lvl == 1 and not forced)):
+            forced.append(1)
+            gives[0] = force[1]
+            gives[1:] = [100 + j if g is not _NO and g == force[1] else g for j, g in enumerate(gives[1:])]
+        subs = tuple(mk(k, keys[j], gives[j], lvl=lvl + 1) for j, k in enumerate(kids))
+        if given is not _NO and idkind != 'dup':
+            sid = given
         return Sp(label, sid, key, subs, bool(docs and not kids and not top and r.random() < 0.6))
-    return mk(shape(depth, [nodes - 1], True), 0, True)
+    forced = []
+    return mk(shape(depth, [nodes - 1], True), 0, force[1] if force and force[0] == 'root' else _NO, True)
 
 
 def sp_nodes(sp):
@@ -549,6 +744,7 @@ def template_for(v):
     if not _docs:
         for name, mark in (('hdr', 'H'), ('ftr', 'F'), ('lv', 'L')):
             _docs[name] = HTML('<dtml-var standard_html_header>[[#%s#<dtml-var label>]]<dtml-var standard_html_footer>' % mark)
+            limited(_docs[name].cook)
 
         class Guarded(HTML):
             """a template class with the two security hooks of DT_String: items are refused by label"""
@@ -564,11 +760,14 @@ def template_for(v):
         _docs['Guarded'] = Guarded
     if v not in _views:
         # compiled once, then shared by every tree and history that uses this configuration
-        _views[v] = (_docs['Guarded'] if v.extra in ('skip', 'guard') else HTML)(view_source(v))
+        t = (_docs['Guarded'] if v.extra in ('skip', 'guard') else HTML)(view_source(v))
+        limited(t.cook)
+        _views[v] = t
     return _views[v]
 
 
-LINK2 = re.compile(r'<a name="([^"]*)" href="([^"?]*)\?([^"#]*?)(tree-[ec])=([^#"&]*)#([^"]*)">')
+# the id is written into the anchor as it is: it may hold quotes, blanks, line ends (everything but ID_FORBIDDEN)
+LINK2 = re.compile(r'<a name="(.*?)" href="([^"?]*)\?([^"#]*?)(tree-[ec])=([^#"&]*)#(.*?)"><i title="', re.S)
 
 
 def render_view(v, root, cookie, param):
@@ -579,7 +778,7 @@ def render_view(v, root, cookie, param):
         md['tree-s'] = cookie
     if param:
         md[param[0]] = param[1]
-    out = tmpl(root, md) if v.root == 'this' else tmpl(DECOY_CLIENT, md, root=root)
+    out = limited(tmpl, root, md) if v.root == 'this' else limited(tmpl, DECOY_CLIENT, md, root=root)
     toks = []
     for m in ROW.finditer(out):
         cell = m.group(1)
@@ -669,6 +868,11 @@ def data_changed(root):
     return out
 
 
+def exact(path):
+    """a path with the type of every id: 1, 1.0, True and '1' are four different ids to find in a link or a cookie"""
+    return tuple((type(x).__name__, repr(x)) for x in path)
+
+
 def check_view(res, case, root, spec, v, toks, cookie, expanded, refused, check_cookie):
     def fail(what):
         c = dict(case)
@@ -696,7 +900,7 @@ def check_view(res, case, root, spec, v, toks, cookie, expanded, refused, check_
             fail('node %r: %d links, has children=%s' % (label, t['links'], link))
             ok = False
         elif link:
-            if tuple(t['path']) != p:
+            if exact(t['path']) != exact(p):
                 fail('link of node %r encodes path %s, expected %s' % (label, t['path'], list(p)))
                 ok = False
             if (t['kind'] == 'tree-c') != exp:
@@ -722,13 +926,13 @@ def check_view(res, case, root, spec, v, toks, cookie, expanded, refused, check_
                 fail('the state cookie %r cannot be decoded' % cookie[:80])
                 return False
             sp = {p for p in sp if len(p) > 1}
-            if sp != set(expanded):
+            if {exact(q) for q in sp} != {exact(q) for q in expanded}:
                 fail('cookie describes %s, expected %s' % (sorted(sp, key=repr), sorted(expanded, key=repr)))
                 ok = False
     return ok
 
 
-def run_view_history(res, r, spec, store, oid, cfg, views, refused, steps, tag):
+def run_view_history(res, r, spec, store, oid, cfg, views, refused, steps, tag, all_prob=(0.06, 0.10)):
     """one browser session on ONE live object tree: the main page is clicked through; between clicks the page is reloaded
     or another page (another tag configuration, same objects, same cookie) is looked at"""
     root = build_live(spec, store, oid, cfg['decoy_branches'], cfg['decoy_id'])
@@ -774,10 +978,10 @@ def run_view_history(res, r, spec, store, oid, cfg, views, refused, steps, tag):
                 res.count('view_other_page_renderings')
         linked = [t for t in toks if 'kind' in t]
         c = r.random()
-        if c < 0.06 and may_expand_all:
+        if c < all_prob[0] and may_expand_all:
             param, what = ('expand_all', 1), 'expand_all'
             expanded = set(all_exp)
-        elif c < 0.10:
+        elif c < all_prob[1]:
             param, what = ('collapse_all', 1), 'collapse_all'
             expanded = set()
         elif linked:
@@ -836,7 +1040,7 @@ def options_part(res, r, tier):
         return View(r.choice(('this', 'name', 'expr')), order, r.choice(('key', 'skey')), branches,
                     idopt, extra, r.random() < 0.3, r.random() < 0.3)
 
-    def session(spec, store, oid, main, tag, steps, n_other):
+    def session(spec, store, oid, main, tag, steps, n_other, all_prob=(0.06, 0.10)):
         # objects whose default methods mislead whenever the page names its own (the other pages then name them too)
         cfg = {'decoy_branches': bool(main.branches), 'decoy_id': bool(main.idopt)}
         others = []
@@ -854,7 +1058,7 @@ def options_part(res, r, tier):
         res.count('view_branches=%s' % (main.branches.split('=')[0] or 'tpValues'))
         res.count('view_root=%s' % main.root)
         res.count('view_histories')
-        run_view_history(res, r, spec, store, oid, cfg, [main] + others, refused, steps, tag)
+        run_view_history(res, r, spec, store, oid, cfg, [main] + others, refused, steps, tag, all_prob)
 
     big = tier != 'quick'
     # every order x every kind of children container x every way of naming the branches, bare otherwise
@@ -883,6 +1087,40 @@ def options_part(res, r, tier):
         docs = any(n.doc for n in sp_nodes(spec))
         main = rand_view(store, idkind == 'oid', docs, {'decoy_branches': False, 'decoy_id': False})
         session(spec, store, idkind == 'oid', main, ('random', t), r.randint(3, 14), r.randint(0, 2))
+    # ---- node ids of every kind ("for ... any node ids"): the id is opaque to the tag, whatever it is made of
+    bare = View('this', '', 'key', '', '', '', False, False)
+
+    def id_session(idkind, tag, cat=None, force=None, plain=False, steps=None):
+        spec = gen_spec(r, r.randint(5, 11), 3, idkind, (not plain) and r.random() < 0.3, False, cat=cat, force=force)
+        docs = any(n.doc for n in sp_nodes(spec))
+        store = 'own' if plain else r.choice(('own', 'fresh', 'tuple', 'seq'))
+        if plain:
+            main = bare
+        else:
+            main = rand_view(store, False, docs, {'decoy_branches': False, 'decoy_id': False})
+            if main.extra == 'skip':
+                main = main._replace(extra='guard')
+        res.count('id_sessions_%s%s%s' % (idkind, '_' + cat if cat else '', '_forced_%s' % force[0] if force else ''))
+        session(spec, store, False, main, ('ids', idkind, cat, repr(force), tag), steps or r.randint(6, 12),
+                0 if plain else r.randint(0, 2), (0.12, 0.18))
+    reps = 4 if big else 1
+    for cat in ID_ATOMS:
+        for rep in range(reps):
+            # the bare tag, the tag with random options, and one long history
+            id_session('wild', (rep, 0), cat=cat, plain=True)
+            id_session('wild', (rep, 1), cat=cat)
+            id_session('wild', (rep, 2), cat=cat, steps=r.randint(25, 40))
+    for rep in range(3 * reps):
+        id_session('scalar', (rep, 0), plain=True)
+        id_session('scalar', (rep, 1))
+        id_session('dup', (rep, 0), plain=True)
+        id_session('dup', (rep, 1))
+        id_session('wild', (rep, 3), steps=r.randint(25, 40))
+    # falsy ids (and their truthy twins) at the root, directly below it and deeper
+    for v in ID_FALSY + [1, True, -0.0, ' ', '0']:
+        for where in ('root', 'child', 'deep'):
+            for rep in range(reps):
+                id_session(r.choice(('plain', 'scalar', 'dup')), (rep, where), force=(where, v), plain=rep % 2 == 0)
 
 
 def repr_tree(node):
@@ -890,6 +1128,15 @@ def repr_tree(node):
 
 
 def run(res, tier, have_driver):
+    _hangs[0] = 0
+    try:
+        _run(res, tier, have_driver)
+    except GiveUp:
+        # MAX_HANGS requests did not return within the time limit: each is an oracle failure already; stop searching
+        res.extra['search_given_up'] = '%d requests exceeded the time limit of %g s' % (_hangs[0], LIMIT)
+
+
+def _run(res, tier, have_driver):
     r = common.rng('C20')
     res.rule = ('codec: byte strings of every length 0..129 (thorough 0..400) plus boundary lengths, url-unsafe '
                 'patterns, states with long / non-ASCII / empty ids; state: tree shapes with <= 7 nodes and depth <= 4 '
@@ -906,9 +1153,22 @@ def run(res, tier, have_driver):
                 'sort attribute plain or method, header+footer, leaves, single, skip_unauthorized with 1..3 refused '
                 'items under an item guard, guard refusing nothing, urlparam, nowrap; expected rows / links / cookie '
                 'come from an immutable description of the tree (never from the live objects) and the documented '
-                'meaning of each option; a request that raises is a failure.  Left out because the unchanged library '
+                'meaning of each option; a request that raises is a failure.  Node ids of every kind (the id is opaque): '
+                'codec states and browser sessions (bare tag, random options, histories of 25..40 requests, expand_all / '
+                'collapse_all more often) whose ids are strings built from atoms of 9 categories -- unpaired surrogates '
+                '(surrogateescape file names), astral, BMP edge values / separators / BOM, Latin-1 and combining forms '
+                '(NFC vs NFD siblings), control characters incl. NUL and line ends, JSON syntax and escapes, markup, URL '
+                'and cookie syntax, look-alikes (\'\', blanks, leading / trailing blanks, case twins, \'0\' \'00\' '
+                '\'1.0\') -- some repeated to 10..60 times their length; the other JSON scalars as ids (0, negative, '
+                '> 2**53, > 2**64, floats incl. denormal / 1e300 / -0.0, None, True / False, and the strings that look '
+                'like them; links and cookie are compared with the TYPE of every id); ids unique among siblings only '
+                '(children named like their parent, like the root, same names under every parent); falsy ids and '
+                'their twins (\'\', 0, None, False, 0.0, -0.0, 1, True, \' \', \'0\') forced at the root, below the root and '
+                'deeper.  Every compilation, rendering and codec call runs under a time limit of 10 s: no result = '
+                'failure, three of them end the search.  Left out because the unchanged library '
                 'fails them (reported, see partial): prefix=, sort on equal keys, sort on a read-only sequence, a page '
-                'without sort after a page with sort on the container\'s own list, expand_all with refused items; '
+                'without sort after a page with sort on the container\'s own list, expand_all with refused items, bytes '
+                'ids, ids in which a high surrogate is followed by a low one; '
                 'non-trivial = history with >= 2 clicks of which one collapses a node with an expanded descendant, '
                 'codec input > 57 bytes, or an option session with >= 3 requests')
     codec_part(res, r, tier, have_driver)
@@ -1019,7 +1279,11 @@ def run(res, tier, have_driver):
                        'pairs); sort on a sequence without item assignment (TypeError); sort reorders a list handed '
                        'out by the branches method in place, so another page without sort shows that order; '
                        'expand_all under skip_unauthorized writes the ids of refused nodes (and of their descendants) '
-                       'into the cookie')
+                       'into the cookie; an id of type bytes (the link code decodes it, but the state cookie cannot be '
+                       'written: TypeError from json on the first request); a str id in which a high surrogate is '
+                       'directly followed by a low surrogate as two code points (JSON reads the two escapes back as '
+                       'ONE astral character: the node can never be expanded); ids that are not JSON scalars (a tuple '
+                       'comes back as a list)')
 
 
 def search_more(res, tier):
